@@ -31,16 +31,48 @@ Proof.
 Qed.
 
 Lemma productions_ok : productions_match_tables = true.
-Proof. vm_compute. reflexivity. Qed.
+Proof. vm_cast_no_check (eq_refl true). Qed.
 
-Lemma all1_true : all1 = true. Proof. vm_compute. reflexivity. Qed.
-Lemma all2_true : all2 = true. Proof. vm_compute. reflexivity. Qed.
-Lemma all3_true : all3 = true. Proof. vm_compute. reflexivity. Qed.
+(* generic extraction from nested forallb (no evaluation of the predicate at Qed time) *)
+Lemma forallb2 : forall (A : Type) (f : A -> A -> bool) l,
+  forallb (fun a => forallb (fun b => f a b) l) l = true -> forall a b, In a l -> In b l -> f a b = true.
+Proof.
+  intros A f l H a b Ia Ib. rewrite forallb_forall in H. specialize (H a Ia).
+  rewrite forallb_forall in H. exact (H b Ib).
+Qed.
+Lemma forallb3 : forall (A : Type) (f : A -> A -> A -> bool) l,
+  forallb (fun a => forallb (fun b => forallb (fun c => f a b c) l) l) l = true ->
+  forall a b c, In a l -> In b l -> In c l -> f a b c = true.
+Proof.
+  intros A f l H a b c Ia Ib Ic. rewrite forallb_forall in H. specialize (H a Ia).
+  exact (forallb2 A (f a) l H b c Ib Ic).
+Qed.
+Lemma forallb4 : forall (A : Type) (f : A -> A -> A -> A -> bool) l,
+  forallb (fun a => forallb (fun b => forallb (fun c => forallb (fun d => f a b c d) l) l) l) l = true ->
+  forall a b c d, In a l -> In b l -> In c l -> In d l -> f a b c d = true.
+Proof.
+  intros A f l H a b c d Ia Ib Ic Id. rewrite forallb_forall in H. specialize (H a Ia).
+  exact (forallb3 A (f a) l H b c d Ib Ic Id).
+Qed.
+
+Definition f1 (o1 : binop) : bool := agrees [tA; TOp o1; tB].
+Definition f2 (o1 o2 : binop) : bool :=
+  agrees [tA; TOp o1; tB; TOp o2; tC] &&
+  agrees [TLP; tA; TOp o1; tB; TRP; TOp o2; tC] &&
+  agrees [tA; TOp o1; TLP; tB; TOp o2; tC; TRP].
+Definition f3 (o1 o2 o3 : binop) : bool := agrees [tA; TOp o1; tB; TOp o2; tC; TOp o3; tD].
+
+Lemma all1_true : forallb f1 all_ops = true.
+Proof. vm_cast_no_check (eq_refl true). Qed.
+Lemma all2_true : forallb (fun a => forallb (fun b => f2 a b) all_ops) all_ops = true.
+Proof. vm_cast_no_check (eq_refl true). Qed.
+Lemma all3_true : forallb (fun a => forallb (fun b => forallb (fun c => f3 a b c) all_ops) all_ops) all_ops = true.
+Proof. vm_cast_no_check (eq_refl true). Qed.
 
 Lemma lr1 : forall o1, lr_parse [tA; TOp o1; tB] = Some (spec_parse [tA; TOp o1; tB]).
 Proof.
-  intros. apply agrees_eq. pose proof all1_true as H. unfold all1 in H.
-  rewrite forallb_forall in H. apply H. apply all_ops_complete.
+  intros. apply agrees_eq.
+  exact (proj1 (forallb_forall f1 all_ops) all1_true o1 (all_ops_complete o1)).
 Qed.
 
 Lemma lr2 : forall o1 o2,
@@ -48,20 +80,16 @@ Lemma lr2 : forall o1 o2,
   lr_parse [TLP; tA; TOp o1; tB; TRP; TOp o2; tC] = Some (spec_parse [TLP; tA; TOp o1; tB; TRP; TOp o2; tC]) /\
   lr_parse [tA; TOp o1; TLP; tB; TOp o2; tC; TRP] = Some (spec_parse [tA; TOp o1; TLP; tB; TOp o2; tC; TRP]).
 Proof.
-  intros. pose proof all2_true as H. unfold all2 in H.
-  rewrite forallb_forall in H. specialize (H o1 (all_ops_complete o1)).
-  rewrite forallb_forall in H. specialize (H o2 (all_ops_complete o2)).
-  apply andb_prop in H. destruct H as [H H3]. apply andb_prop in H. destruct H as [H1 H2].
-  repeat split; apply agrees_eq; assumption.
+  intros. pose proof (forallb2 binop f2 all_ops all2_true o1 o2 (all_ops_complete o1) (all_ops_complete o2)) as H.
+  unfold f2 in H. apply andb_prop in H. destruct H as [H H3]. apply andb_prop in H. destruct H as [H1 H2].
+  split; [|split]; apply agrees_eq; assumption.
 Qed.
 
 Lemma lr3 : forall o1 o2 o3,
   lr_parse [tA; TOp o1; tB; TOp o2; tC; TOp o3; tD] = Some (spec_parse [tA; TOp o1; tB; TOp o2; tC; TOp o3; tD]).
 Proof.
-  intros. apply agrees_eq. pose proof all3_true as H. unfold all3 in H.
-  rewrite forallb_forall in H. specialize (H o1 (all_ops_complete o1)).
-  rewrite forallb_forall in H. specialize (H o2 (all_ops_complete o2)).
-  rewrite forallb_forall in H. apply H. apply all_ops_complete.
+  intros. apply agrees_eq.
+  exact (forallb3 binop f3 all_ops all3_true o1 o2 o3 (all_ops_complete o1) (all_ops_complete o2) (all_ops_complete o3)).
 Qed.
 
 (* in jq's terms: the automaton groups two operators as jq's table says *)
@@ -82,25 +110,23 @@ Lemma lr3_iff : forall o1 o2 o3 e,
   lr_parse [tA; TOp o1; tB; TOp o2; tC; TOp o3; tD] = Some (Some e) <->
   (wf (list N) gen_lvl gen_asc e /\ toks (list N) e = [tA; TOp o1; tB; TOp o2; tC; TOp o3; tD]).
 Proof.
-  intros. rewrite lr3. unfold spec_parse. rewrite <- (gen_parse_iff (list N)).
-  split; intros H; [inversion H; reflexivity|f_equal; exact H].
+  intros. rewrite lr3. unfold spec_parse. split.
+  - intros H. apply (gen_parse_iff (list N)). unfold gparse. congruence.
+  - intros H. apply (gen_parse_iff (list N)) in H. unfold gparse in H. rewrite H. reflexivity.
 Qed.
 
 (* four operators: one representative per precedence level (9^4 strings) *)
 Definition level_reps : list binop := [OpPipe; OpComma; OpAlt; OpModify; OpOr; OpAnd; OpLe; OpSub; OpMod].
 Definition tE : tok (list N) := TAtom [101%N].
-Definition all4 : bool :=
-  forallb (fun o1 => forallb (fun o2 => forallb (fun o3 => forallb (fun o4 =>
-    agrees [tA; TOp o1; tB; TOp o2; tC; TOp o3; tD; TOp o4; tE]) level_reps) level_reps) level_reps) level_reps.
-Lemma all4_true : all4 = true. Proof. vm_compute. reflexivity. Qed.
+Definition f4 (o1 o2 o3 o4 : binop) : bool := agrees [tA; TOp o1; tB; TOp o2; tC; TOp o3; tD; TOp o4; tE].
+Lemma all4_true :
+  forallb (fun a => forallb (fun b => forallb (fun c => forallb (fun d => f4 a b c d) level_reps) level_reps) level_reps) level_reps = true.
+Proof. vm_cast_no_check (eq_refl true). Qed.
 
 Lemma lr4 : forall o1 o2 o3 o4, In o1 level_reps -> In o2 level_reps -> In o3 level_reps -> In o4 level_reps ->
   lr_parse [tA; TOp o1; tB; TOp o2; tC; TOp o3; tD; TOp o4; tE] =
   Some (spec_parse [tA; TOp o1; tB; TOp o2; tC; TOp o3; tD; TOp o4; tE]).
 Proof.
-  intros o1 o2 o3 o4 I1 I2 I3 I4. apply agrees_eq. pose proof all4_true as H. unfold all4 in H.
-  rewrite forallb_forall in H. specialize (H o1 I1).
-  rewrite forallb_forall in H. specialize (H o2 I2).
-  rewrite forallb_forall in H. specialize (H o3 I3).
-  rewrite forallb_forall in H. apply H. exact I4.
+  intros o1 o2 o3 o4 I1 I2 I3 I4. apply agrees_eq.
+  exact (forallb4 binop f4 level_reps all4_true o1 o2 o3 o4 I1 I2 I3 I4).
 Qed.
